@@ -232,17 +232,18 @@ func (c *compiled) clientEligible(ip net.IP) bool {
 }
 
 // zoneExcluded reports whether qname (canonical, lower-case, FQDN)
-// suffix-matches one of the exclude-zone entries. The zone "." is
-// not allowed in the config (it would disable the middleware), so
-// the FQDN root never appears here. Match must occur on a label
-// boundary: "example.org." matches "example.org." and
+// suffix-matches one of the exclude-zone entries. Every name lies under
+// the root, so an entry "." excludes everything (it disables synthesis;
+// nothing rejects it at configuration time, and ignoring it would
+// synthesise for names the operator excluded). Otherwise the match must
+// occur on a label boundary: "example.org." matches "example.org." and
 // "host.example.org.", but NOT "badexample.org.".
 func (c *compiled) zoneExcluded(qname string) bool {
 	if len(c.excludeZones) == 0 {
 		return false
 	}
 	for _, z := range c.excludeZones {
-		if qname == z {
+		if z == "." || qname == z {
 			return true
 		}
 		// z always ends with "." (FQDN'd at compile time), so
